@@ -30,6 +30,7 @@ from simkit.world import World
 PROP = "C14"
 LEVEL = "exploration"
 TIERS = {"quick": 2400, "thorough": 60000}
+RUN_WALL_S = 60  # slowest legitimate run under full load: 5 s (a Monte-Carlo level on a two-armed root)
 RULE = (
     "one run = one tree: a collinear chain of 2-12 nodes or a root with two arms on opposite sides (radii in "
     "[0.1, 6], each compartment length = max(end radii) x factor in {1 exactly, 1.000006, 1.001, 1.2, 1.5, 1.9, 2.5, 6}, so "
